@@ -498,6 +498,10 @@ func (e *Evaluator) makeArray(
 	if t.IsTargetIdentifier("[") {
 		isParentheses = true
 		p.SkipNewline()
+
+		// same as after a comma: the first element must not see what was evaluated
+		// before the literal (a = 1; a = [[1]])
+		p.SetLastEvaluatedT(base.MakeNil())
 	}
 
 	if !isParentheses {
